@@ -134,8 +134,34 @@ def run(ctx):
         only_prec = quick and singles
         gs = adcgen.GroundState(adcgen.Operators(variant=part),
                                 first_order_singles=singles)
-        for variant in (["pp"] if only_prec else variants):
+        for variant in (["pp", "ip"] if only_prec else variants):
             isr = adcgen.IntermediateStates(gs, variant)
+            if only_prec and variant == "ip":
+                # with first-order singles the norm-factor / projector
+                # splitting of the lower-class projection matters at third
+                # order already: coupling block of ip
+                for order in range(4):
+                    for bs, ks in (("h", "hhp"), ("hhp", "h")):
+                        ib, ik = NAMES[bs][0], NAMES[ks][1]
+                        tg = get_symbols(ib + ik)
+                        label = (f"overlap_isr:{part}+s:{variant}:{bs},{ks}:"
+                                 f"{order}")
+                        try:
+                            ov = isr.overlap_isr(order, f"{bs},{ks}",
+                                                 f"{ib},{ik}")
+                        except Exception as ex:
+                            ctx.violation(
+                                f"C04:overlap-exception:{variant}:{bs},{ks}:"
+                                f"{order}", f"overlap_isr raised {ex!r}", {},
+                                False)
+                            continue
+                        pairs.append(EQ.Pair(
+                            Expr(ov, target_idx=tg).expand(),
+                            Expr(S.Zero, target_idx=tg), tg, label,
+                            deltas=True))
+                        ctx.case(key=label, nontrivial=True,
+                                 kind=f"overlap_isr:{variant}")
+                continue
             for bs, ks, max_order in block_plan(variant, quick, only_prec):
                 for order in range(max_order + 1):
                     ib, ik = NAMES[bs][0], NAMES[ks][1]
